@@ -259,9 +259,15 @@ impl IoDriver for SimDriver {
 }
 
 pub fn attach_drivers(rt: &mut Runtime, n: usize) -> Arc<Mutex<DriverShared>> {
+    attach_drivers_named(rt, n, false)
+}
+
+/// `same_name`: every driver is registered under one name (what the runtime binary does for two devices of one driver type)
+pub fn attach_drivers_named(rt: &mut Runtime, n: usize, same_name: bool) -> Arc<Mutex<DriverShared>> {
     let shared = DriverShared::new(n);
     for i in 0..n {
-        rt.add_io_driver(format!("sim{i}"), Box::new(SimDriver { index: i, shared: shared.clone() }));
+        let name = if same_name { "sim".to_string() } else { format!("sim{i}") };
+        rt.add_io_driver(name, Box::new(SimDriver { index: i, shared: shared.clone() }));
     }
     shared
 }
